@@ -225,7 +225,7 @@ fn generate(rng: &mut Rng, n: usize, _tier: &str, out: &mut dyn Write) {
                     // a snapshot taken inside a commit window
                     writeln!(out, "tx_until {}", rng.pick(COMMIT_POINTS)).unwrap();
                     nsnap += 1;
-                    let name = format!("s{}", nsnap);
+                    let name = format!("s{}_{}", case, nsnap);
                     writeln!(out, "snap {}", name).unwrap();
                     writeln!(out, "read {}", name).unwrap();
                     writeln!(out, "resume").unwrap();
@@ -237,7 +237,7 @@ fn generate(rng: &mut Rng, n: usize, _tier: &str, out: &mut dyn Write) {
                 6 if runs > 0 => {
                     writeln!(out, "compact_until {}", rng.pick(COMPACT_POINTS)).unwrap();
                     nsnap += 1;
-                    let name = format!("s{}", nsnap);
+                    let name = format!("s{}_{}", case, nsnap);
                     writeln!(out, "snap {}", name).unwrap();
                     writeln!(out, "read {}", name).unwrap();
                     writeln!(out, "resume").unwrap();
@@ -248,7 +248,7 @@ fn generate(rng: &mut Rng, n: usize, _tier: &str, out: &mut dyn Write) {
                 7 if txs < 6 => {
                     // a whole commit (or compaction) inside the acquisition window of a snapshot
                     nsnap += 1;
-                    let name = format!("s{}", nsnap);
+                    let name = format!("s{}_{}", case, nsnap);
                     writeln!(out, "snap_until {} {}", name, rng.pick(READ_POINTS)).unwrap();
                     if runs > 0 && rng.chance(1, 3) {
                         writeln!(out, "compact").unwrap();
@@ -264,7 +264,7 @@ fn generate(rng: &mut Rng, n: usize, _tier: &str, out: &mut dyn Write) {
                 }
                 8 | 9 => {
                     nsnap += 1;
-                    let name = format!("s{}", nsnap);
+                    let name = format!("s{}_{}", case, nsnap);
                     writeln!(out, "snap {}", name).unwrap();
                     writeln!(out, "read {}", name).unwrap();
                     live.push(name);
